@@ -363,6 +363,13 @@ Theorem C15_cc_leader_completeness_partial : forall F, inter_family F -> forall 
 Proof. exact cc_leader_completeness. Qed.
 Print Assumptions C15_cc_leader_completeness_partial.
 
+Theorem C15_cc_committed_never_removed_partial : forall F, inter_family F -> forall boot page1 x x',
+  cxreachableF F boot page1 x -> cxstep boot page1 x x' ->
+  forall y, firstn (n_commit (fst (cx_nodes x y))) (n_log (fst (cx_nodes x' y)))
+            = firstn (n_commit (fst (cx_nodes x y))) (n_log (fst (cx_nodes x y))).
+Proof. exact cc_committed_prefix_kept. Qed.
+Print Assumptions C15_cc_committed_never_removed_partial.
+
 (* FULL (no restriction on the configurations): in every step of the membership-change system
    each node's persisted term and commit index never regress and its vote changes only with a
    term increase or from none *)
